@@ -3,7 +3,10 @@
 export GOFLAGS=-mod=mod GOPROXY=off GOSUMDB=off GOTOOLCHAIN=local
 cd /repo || exit 3
 OUT="$(mktemp /tmp/baseline-XXXXXX.json)"
-trap 'rm -f "$OUT"' EXIT
+# the repository's tests leave their temporary directories behind: give them a scratch TMPDIR that is removed afterwards
+SCRATCH="$(mktemp -d /tmp/baseline-tmp-XXXXXX)"
+trap 'rm -rf "$OUT" "$SCRATCH"' EXIT
+export TMPDIR="$SCRATCH"
 go test -json -vet=off -count=1 -timeout 25m ./... > "$OUT" 2>/dev/null
 python3 - "$OUT" <<'PY'
 import json,sys
